@@ -79,6 +79,7 @@ Definition res_opt_eqb {A} (eq : A -> A -> bool) (r : res A) (o : option A) : bo
   end.
 
 Record c06b_case := {
+  b_apko : bool;                         (* true: written by walkFS+writeTar; false: by the harness's own loop over archive/tar's Writer *)
   b_members : list member;               (* what is handed to the writer *)
   b_written : option (option (list seg));(* None: the writer is not part of the case; Some None: the real writer failed *)
   b_stream : option (list seg);          (* the stream read back; None: the written one *)
@@ -89,7 +90,9 @@ Definition fs_members (c : c06_case) (contents : list (N * list seg)) : list mem
   map (member_of_entry (map (fun p => (fst p, segs (snd p))) contents)) (walk (case_env c) (c_tree c)).
 
 Definition check_c06b (c : c06b_case) : list string :=
-  let w := write_archive (b_members c) in
+  (* apko's writeTar: with the Format and the Close read from tarball.go; the
+     harness's own loop: Format unset, Close called *)
+  let w := if b_apko c then write_archive (b_members c) else write_archive_gen 0 true (b_members c) in
   let stream := match b_stream c, b_written c with
                 | Some s, _ => segs s
                 | None, Some (Some s) => segs s
@@ -103,6 +106,14 @@ Definition check_c06b (c : c06b_case) : list string :=
   (* the validator of c06_bytes_roundtrip on what the REAL writer and reader did:
      members inside the envelope must have been written, and archive/tar's Reader
      must have returned exactly their views *)
+  (* a tar stream ends with two zero blocks and is a whole number of blocks *)
+  match b_apko c, b_written c with
+  | true, Some (Some s) =>
+      let bs := segs s in
+      tag_if (negb ((List.length bs mod 512 =? 0)%nat && (1024 <=? List.length bs)%nat &&
+                    forallb (Ascii.eqb Ascii.zero) (skipn (List.length bs - 1024) bs))) "viol:tar-trailer"
+  | _, _ => []
+  end ++
   match b_written c, b_stream c with
   | Some o, None =>
       if forallb member_okb (b_members c) then
